@@ -3,6 +3,7 @@ package props
 // C09 — a read-only Stack or Condition cannot be changed.
 
 import (
+	"errors"
 	"fmt"
 	"sort"
 	"strings"
@@ -49,6 +50,28 @@ func c09Foreign(mk func() any, isCond bool, st *Stats) *Violation {
 		{"single-member parent revealed (%s)", false, func(ro, f any) { stackage.Or().Push(stackage.And().Push(f)).Reveal() }},
 		{"first member of a parent that also holds a needless envelope, revealed (%s)", false, func(ro, f any) {
 			stackage.And().Push(f, stackage.And().Push(stackage.Or().Push("a", "b")), "tail").Reveal()
+		}},
+		// a second handle of a read-only Condition is re-initialised (Init replaces the instance behind THAT handle
+		// only) and then used like any writable Condition: nothing it does may reach the read-only instance
+		{"second handle Init() then SetLogLevel(all)+setters (%s)", true, func(ro, f any) {
+			if c, ok := ro.(stackage.Condition); ok {
+				h := c
+				h.Init()
+				h.SetLogLevel(stackage.AllLogLevels)
+				h.SetKeyword("other").SetOperator(stackage.Ne).SetExpression("else").SetID("h2").SetCategory("h2cat")
+				h.Paren().NoPadding().Encap("<", ">").SetNoNesting()
+				h.SetAuxiliary(stackage.Auxiliary{"h2": 1})
+				h.SetErr(errors.New("h2 error"))
+			}
+		}},
+		{"second handle Init() then UnsetLogLevel(all)+SetLogger (%s)", true, func(ro, f any) {
+			if c, ok := ro.(stackage.Condition); ok {
+				h := c
+				h.Init()
+				h.UnsetLogLevel(stackage.AllLogLevels)
+				h.SetLogger(c18Logger(3))
+				h.SetLogger(c18Logger(0))
+			}
 		}},
 		{"Condition holding it as %s", false, func(ro, f any) {
 			c := stackage.Cond("holder", stackage.Eq, f)
